@@ -107,7 +107,7 @@ def _build_reply(code_i, text_i, nmid, m1, m2, m3, same_prefix_mid):
     return code, lines
 
 
-def _reply_assembly(code_i, text_i, nmid, m1, m2, m3, same_prefix_mid, lf_only, code2_i, eof_at):
+def _reply_assembly(code_i, text_i, nmid, m1, m2, m3, same_prefix_mid, lf_only, code2_i, eof_at, cut_kind=0):
     """Two replies back to back: read_reply returns exactly the first one's lines (code, text) and leaves the second unread."""
     code, lines = _build_reply(code_i, text_i, nmid, m1, m2, m3, same_prefix_mid)
     code2 = pick(_CODES, code2_i)
@@ -119,7 +119,10 @@ def _reply_assembly(code_i, text_i, nmid, m1, m2, m3, same_prefix_mid, lf_only, 
     truncated = eof_at >= 0 and eof_at < len(lines)
     if truncated:
         # the connection ends inside the reply: after eof_at complete lines plus half a line
-        cut = b''.join(l.encode() + eol for l in lines[:eof_at]) + lines[eof_at].encode()[:2]
+        last = lines[eof_at].encode()
+        # ... two bytes of it / the whole line but no line terminator / the line and a CR but no LF
+        part = pick([last[:2], last, last + b'\r'], cut_kind)
+        cut = b''.join(l.encode() + eol for l in lines[:eof_at]) + part
         wire = cut
     conn = FakeConnection(wire)
     cs = ControlStream(conn)
@@ -243,15 +246,15 @@ HARNESSES = [
       doc='for URLs whose user, password and path are built from percent-encoded CR / LF / NUL / CRLF+command pieces: every write on the '
           'control connection during login, SIZE, RETR, MLSD, LIST is exactly one CRLF-terminated line (or the command is refused)'),
     H('reply_assembly', '_reply_assembly',
-      'code_i: int, text_i: int, nmid: int, m1: int, m2: int, m3: int, same_prefix_mid: bool, lf_only: bool, code2_i: int, eof_at: int',
-      pre=['0 <= code_i <= 5 and 0 <= text_i <= 3 and 0 <= nmid <= 3 and 0 <= m1 <= 5 and 0 <= m2 <= 5 and 0 <= m3 <= 5 and 0 <= code2_i <= 5 and -1 <= eof_at <= 3'],
-      parts={'quick': [{'tag': 'n%d' % n, 'fix': {'nmid': str(n), 'code2_i': '1', 'text_i': '1'}, 'pre': ['code_i <= 2 and eof_at <= 1'] if n == 2 else []} for n in range(3)],
+      'code_i: int, text_i: int, nmid: int, m1: int, m2: int, m3: int, same_prefix_mid: bool, lf_only: bool, code2_i: int, eof_at: int, cut_kind: int',
+      pre=['0 <= code_i <= 5 and 0 <= text_i <= 3 and 0 <= nmid <= 3 and 0 <= m1 <= 5 and 0 <= m2 <= 5 and 0 <= m3 <= 5 and 0 <= code2_i <= 5 and -1 <= eof_at <= 3 and 0 <= cut_kind <= 2'],
+      parts={'quick': [{'tag': 'n%d' % n, 'fix': {'nmid': str(n), 'code2_i': '1', 'text_i': '1'}, 'pre': ['code_i <= 2 and eof_at <= 1 and cut_kind >= 1'] if n == 2 else []} for n in range(3)],
              'thorough': [{'tag': 'n%d_c%d' % (n, c), 'fix': {'nmid': str(n), 'code_i': str(c)}} for n in range(4) for c in range(6)]},
-      timeout={'quick': 250, 'thorough': 1800}, samples=[(0, 1, 0, 0, 0, 0, False, False, 1, -1), (5, 2, 2, 1, 2, 0, False, False, 0, -1), (0, 1, 2, 0, 0, 0, True, True, 1, 1)],
+      timeout={'quick': 250, 'thorough': 1800}, samples=[(0, 1, 0, 0, 0, 0, False, False, 1, -1, 0), (5, 2, 2, 1, 2, 0, False, False, 0, -1, 0), (0, 1, 2, 0, 0, 0, True, True, 1, 1, 1)],
       need=['single', 'multi', 'eof-error'],
       funcs=['wpull/protocol/ftp/stream.py:ControlStream.read_reply', 'wpull/protocol/ftp/request.py:Reply.parse'],
       doc='single and multi-line replies (0-3 continuation lines of 6 shapes incl. indented lines beginning with digits, CRLF or LF): '
-          'read_reply returns the RFC 959 code and text, consumes exactly that reply, reads only line-wise; a reply cut short is an error'),
+          'read_reply returns the RFC 959 code and text, consumes exactly that reply, reads only line-wise; a reply cut short - inside a line, or at the end of a line that lacks its LF - is an error'),
     H('transfer_completion', '_transfer_completion', 'code_i: int, has_reply: bool, data_fails: bool, multi: bool',
       pre=['0 <= code_i <= 7'], timeout={'quick': 120, 'thorough': 300}, samples=[(0, True, False, False), (1, True, False, True), (0, False, False, False)],
       need=['complete', 'incomplete'],
